@@ -79,11 +79,27 @@ class AstAnalyzer:
         """
 
         assigned_vars = self.assigned_vars(fun.body)
+        # Parameters (of the function or of a function nested in it) hide outer-scope
+        # variables of the same name.
+        parameters: set[str] = set()
+        for node in ast.walk(fun):
+            if isinstance(node, ast.FunctionDef):
+                args = node.args
+                for arg in (*args.posonlyargs, *args.args, *args.kwonlyargs):
+                    parameters.add(arg.arg)
+                if args.vararg is not None:
+                    parameters.add(args.vararg.arg)
+                if args.kwarg is not None:
+                    parameters.add(args.kwarg.arg)
         for node in ast.walk(fun):
             if isinstance(node, ast.If):
                 if isinstance(node.test, ast.Name):
                     python_var = node.test.id
-                    if python_var not in assigned_vars and python_var in globals:
+                    if (
+                        python_var not in assigned_vars
+                        and python_var not in parameters
+                        and python_var in globals
+                    ):
                         # Condition depends on an outer-scope variable.
                         self._constant_if_condition[node] = bool(globals[python_var])
 
